@@ -8,6 +8,7 @@ import Driver.Codec
 import Mistletoe.Props.C14
 import Mistletoe.Props.C14_Wide
 import Mistletoe.Props.C03
+import Mistletoe.Props.C03_Lists
 import Mistletoe.Props.C09
 import Mistletoe.Props.C09_Code
 import Mistletoe.Props.C19
@@ -155,10 +156,39 @@ def c09Fragment2 (j : Json) : Except String Json := do
     let ok := it.ok && rest.all (·.ok) && MdRound.adjOk it rest && (k == 0 || lines.all (fun l => !l.contains '\t'))
     pure (Json.mkObj [("ok", Json.bool ok), ("text", Driver.str (MdRound.qStrs k lines).flatten)])
 
+/-- a tree of the C03 fragment with lists: the four kinds of `treeOf` plus
+    {"k":"list","ordered":b,"start":n,"marker":"-","pad":n,"loose":b,"items":[[tree, …], …]} -/
+partial def tree2Of (j : Json) : Except String ComposeL.T2 := do
+  let k ← j.getObjValAs? String "k"
+  match k with
+  | "para" => do pure (.para (← (← Driver.getArr j "lines").toList.mapM Driver.asStr))
+  | "heading" => do pure (.heading (← j.getObjValAs? Nat "level") (← Driver.getStr j "text") (← Driver.getStr j "line"))
+  | "hr" => do pure (.hr (← Driver.getStr j "line"))
+  | "quote" => do
+    pure (.quote (← j.getObjValAs? Bool "bare") (← (← Driver.getArr j "kids").toList.mapM tree2Of))
+  | "list" => do
+    let mk ← match (← Driver.getStr j "marker") with
+      | [c] => pure c
+      | _ => throw "marker: one character"
+    let items ← (← Driver.getArr j "items").toList.mapM (fun it => do (← Driver.asArr it).toList.mapM tree2Of)
+    pure (.list (← j.getObjValAs? Bool "ordered") (← j.getObjValAs? Nat "start") mk (← j.getObjValAs? Nat "pad")
+      (← j.getObjValAs? Bool "loose") items)
+  | k => throw s!"tree kind {k}"
+
+/-- op "c03.fragment2": {"forest": [tree], "dq", "sq"} → the hypothesis `T2.oks` of `C03_lists_html_partial`, the text the
+    writer produces and the HTML the theorem concludes -/
+def c03Fragment2 (j : Json) : Except String Json := do
+  let ts ← (← Driver.getArr j "forest").toList.mapM tree2Of
+  let o : Html.Opts := { dq := (j.getObjValAs? Bool "dq").toOption.getD false, sq := (j.getObjValAs? Bool "sq").toOption.getD false }
+  pure (Json.mkObj [("ok", Json.bool (ComposeL.T2.oks ts && !ts.isEmpty)),
+                    ("text", Driver.str (ComposeL.writes2 ts).flatten),
+                    ("html", Driver.str (ComposeL.htmlOf2 o ts))])
+
 def dispatch (op : String) (j : Json) : Except String Json :=
   match op with
   | "c14.hyps" => c14Hyps j
   | "c03.fragment" => c03Fragment j
+  | "c03.fragment2" => c03Fragment2 j
   | "c09.fragment" => c09Fragment j
   | "c09.fragment2" => c09Fragment2 j
   | "c19.outline" => c19Outline j
